@@ -1,0 +1,71 @@
+//! Verification hooks, only compiled with `--cfg rivia_verif`
+//!
+//! Nothing in this module or guarded by the `rivia_verif` cfg exists in a normal build. The hooks
+//! are purely additive: they expose state for inspection and announce lock acquisition so that an
+//! external harness can explore states and schedules of the real implementation.
+use std::cell::RefCell;
+
+/// Lock related events announced by `Memfs` right before a guard is acquired and when it is dropped
+#[derive(Debug, Clone, Copy, PartialEq, Eq)]
+pub enum LockEvent {
+    AcquireRead,
+    AcquireWrite,
+    Release,
+}
+
+thread_local! {
+    #[allow(clippy::type_complexity)]
+    static LOCK_HOOK: RefCell<Option<Box<dyn Fn(LockEvent)>>> = RefCell::new(None);
+}
+
+/// Register (or clear) the calling thread's lock event callback
+pub fn set_lock_hook(hook: Option<Box<dyn Fn(LockEvent)>>) {
+    LOCK_HOOK.with(|x| *x.borrow_mut() = hook);
+}
+
+/// Invoke the calling thread's lock event callback if one is registered
+pub fn lock_event(event: LockEvent) {
+    LOCK_HOOK.with(|x| {
+        if let Some(hook) = x.borrow().as_ref() {
+            hook(event);
+        }
+    });
+}
+
+/// Complete rendering of one `Memfs` entry
+#[derive(Debug, Clone, PartialEq, Eq, Hash, PartialOrd, Ord)]
+pub struct EntryDump {
+    pub key: String,  // key the entry is stored under
+    pub path: String, // path the entry itself reports
+    pub alt: String,
+    pub rel: String,
+    pub dir: bool,
+    pub file: bool,
+    pub link: bool,
+    pub mode: u32,
+    pub uid: u32,
+    pub gid: u32,
+    pub follow: bool,
+    pub cached: bool,
+    pub children: Option<Vec<String>>, // sorted child names
+}
+
+/// Complete rendering of one stored `Memfs` file
+#[derive(Debug, Clone, PartialEq, Eq, Hash, PartialOrd, Ord)]
+pub struct FileDump {
+    pub key: String, // key the data is stored under
+    pub data: Vec<u8>,
+    pub pos: u64,
+    pub path: Option<String>,
+    pub has_fs: bool,
+}
+
+/// Complete canonical rendering of a `Memfs` instance, sorted by key
+#[derive(Debug, Clone, PartialEq, Eq, Hash, PartialOrd, Ord)]
+pub struct Dump {
+    pub cwd: String,
+    pub root: String,
+    pub poisoned: bool,
+    pub entries: Vec<EntryDump>,
+    pub files: Vec<FileDump>,
+}
